@@ -270,6 +270,11 @@ class Facts:
         # in no_std configurations rustc prints alloc items through the crate's own `pub mod alloc`
         # re-export (`alloc::alloc::vec::Vec`); normalise to the names used in std builds
         txt = txt.replace('alloc::alloc::', 'std::')
+        # items renamed since the reference tree are mapped back to their reference names (names.py)
+        self.renames, self.rename_log = tree_renames()
+        if self.renames:
+            import names
+            txt = names.apply(txt, self.renames)
         self.j = json.loads(txt)
         self.path = path
         self.crate = self.j['crate']
@@ -484,6 +489,40 @@ def tree_hash():
 
 
 _loaded = {}
+_renames = {}
+
+
+def raw_path(config, crate='unimock'):
+    """path of the raw facts file of (config, crate) for the current tree, extracting if necessary"""
+    th = tree_hash()
+    d = os.path.join(VERIF, '.cache', 'facts', '%s-%s' % (th, config))
+    f = os.path.join(d, '%s.lib.json' % crate)
+    if os.environ.get('VERIF_NOCACHE') == '1' and (config, th) not in _extracted or not (os.path.exists(f) and os.path.exists(os.path.join(d, 'nonce'))):
+        _extract_locked(config, d)
+        _extracted.add((config, th))
+    if not os.path.exists(f):
+        raise FactsError('facts file missing after extraction: %s' % f)
+    return f
+
+
+_extracted = set()
+
+
+def tree_renames():
+    th = tree_hash()
+    if th in _renames:
+        return _renames[th]
+    _renames[th] = ([], [])     # while computing (and if it fails): names as they are
+    import names
+    try:
+        raws = []
+        for crate in ('unimock', 'unimock_macros'):
+            with open(raw_path('std', crate)) as f:
+                raws.append(f.read().replace('alloc::alloc::', 'std::'))
+        _renames[th] = names.renames_for(raws[0], raws[1])
+    except FactsError:
+        raise
+    return _renames[th]
 
 
 def load(config, crate='unimock', tier='quick'):
@@ -496,8 +535,9 @@ def load(config, crate='unimock', tier='quick'):
     f = os.path.join(d, '%s.lib.json' % crate)
     nocache = os.environ.get('VERIF_NOCACHE') == '1'
     ok_marker = os.path.join(d, 'nonce')
-    if nocache or not (os.path.exists(f) and os.path.exists(ok_marker)):
+    if (nocache and (config, th) not in _extracted) or not (os.path.exists(f) and os.path.exists(ok_marker)):
         _extract_locked(config, d)
+        _extracted.add((config, th))
     if not os.path.exists(f):
         raise FactsError('facts file missing after extraction: %s' % f)
     facts = Facts(f)
